@@ -98,10 +98,19 @@ def r122(ctx, R):
         why = src(arg) if arg is not None else None
         if isinstance(arg, ast.Name):
             d = c05.single_def(f, arg.id)
+            # a - b, or a.difference(b)
+            dl = dr = None
             if d is not None and isinstance(d.value, ast.BinOp) and \
                     isinstance(d.value.op, ast.Sub):
-                left = c05.single_def(f, src(d.value.left))
-                right = c05.single_def(f, src(d.value.right))
+                dl, dr = d.value.left, d.value.right
+            elif d is not None and isinstance(d.value, ast.Call) and \
+                    isinstance(d.value.func, ast.Attribute) and \
+                    d.value.func.attr == 'difference' and len(
+                        d.value.args) == 1 and not d.value.keywords:
+                dl, dr = d.value.func.value, d.value.args[0]
+            if dl is not None:
+                left = c05.single_def(f, src(dl))
+                right = c05.single_def(f, src(dr))
                 why = '%s = %s' % (arg.id, src(d.value))
                 if left is not None and right is not None:
                     ls, rs = src(left.value), src(right.value)
@@ -271,10 +280,16 @@ def r125(ctx, R):
     prog = ctx.prog
     f = prog.func(ENSURE)
     # placeholders
+    # positions, not spellings: ensure_consumer(ctx, consumer_uuid,
+    # project_id, user_id, ...)
+    pj = f.params[2] if len(f.params) > 3 else None
+    us = f.params[3] if len(f.params) > 3 else None
     ifs = [n for n in own_nodes(f.node) if isinstance(n, ast.If)
-           and src(n.test).replace(' ', '') == 'project_idisNone']
+           and isinstance(n.test, ast.Compare) and len(n.test.ops) == 1
+           and isinstance(n.test.ops[0], ast.Is) and src(n.test.left) == pj
+           and src(n.test.comparators[0]) == 'None']
     ok = False
-    why = 'no "project_id is None" branch'
+    why = 'no "<project id parameter> is None" branch'
     if len(ifs) == 1:
         vals = {}
         for st in ifs[0].body:
@@ -282,20 +297,21 @@ def r125(ctx, R):
                     st.targets[0], ast.Name):
                 vals[st.targets[0].id] = src(st.value)
         why = vals
-        ok = vals.get('project_id', '').endswith(
+        ok = vals.get(pj, '').endswith(
             'config.placement.incomplete_consumer_project_id') and \
-            vals.get('user_id', '').endswith(
+            vals.get(us, '').endswith(
                 'config.placement.incomplete_consumer_user_id')
-        # the placeholder assignment precedes the project/user lookup
+        # the placeholder assignment precedes every use of the two values
+        # as an argument (the project / user lookups, whatever they are
+        # called)
         g = cfgmod.cfg_of(f)
         look = [s.node for s in ctx.cg.calls_in(f) if any(
-            x.qbase in ('placement.handlers.util:_get_or_create_project',
-                        'placement.handlers.util:_get_or_create_user')
-            for x in s.callees)]
-        ok = ok and len(look) == 2 and all(
+            isinstance(a, ast.Name) and a.id in (pj, us)
+            for a in list(s.node.args) + [k.value for k in s.node.keywords])]
+        used = {a.id for x in look for a in list(x.args) + [
+            k.value for k in x.keywords] if isinstance(a, ast.Name)}
+        ok = ok and {pj, us} <= used and all(
             g.dominates(ifs[0], C.stmt_of(x)) for x in look)
-        args = sorted(src(x.args[1]) for x in look if len(x.args) > 1)
-        ok = ok and args == ['project_id', 'user_id']
     R.ob('R12.5', 'ensure_consumer:placeholders', ok,
          'a request without project_id uses the configured '
          'incomplete_consumer_project_id / incomplete_consumer_user_id',
